@@ -256,8 +256,9 @@ void fb_inv_exgcd(fb_t c, const fb_t a) {
 		bv = RLC_FB_BITS + 1;
 		j = bu - bv;
 
-		/* While (u != 1). */
-		while (1) {
+		/* While (u != 1). For a = 1 the answer is g1 = 1 already: entering the
+		 * loop would reduce f by 1 instead and return f + 1. */
+		while (bu > 1) {
 			/* If j < 0 then swap(u, v), swap(g1, g2), j = -j. */
 			if (j < 0) {
 				t = u;
